@@ -375,6 +375,10 @@ pub assume_specification<T, P: FnOnce(&T) -> bool>[ Option::<T>::filter ](o: Opt
         r is Some ==> o is Some && r == o && p.ensures((&o->Some_0,), true),
         o is Some && r is None ==> p.ensures((&o->Some_0,), false);
 // std::cmp::max(a, b): b unless a > b
+// Result::unwrap_or_else (std): the Ok payload, else whatever the fallback closure returns for the error
+pub assume_specification<T, E, F: FnOnce(E) -> T>[ Result::<T, E>::unwrap_or_else ](res: Result<T, E>, op: F) -> (r: T)
+    requires res is Err ==> op.requires((res->Err_0,)),
+    ensures match res { Ok(t) => r == t, Err(e) => op.ensures((e,), r) };
 pub assume_specification<T: Ord>[ core::cmp::max ](a: T, b: T) -> (r: T)
     ensures T::obeys_cmp_spec() ==> r == (if a.cmp_spec(&b) == Ordering::Greater { a } else { b });
 // u64::pow: aborts on overflow (overflow-checks = true)
